@@ -296,7 +296,7 @@ int case_begin(const char* key, const char* fmt, ...) {
   cur_hash = h;
   g_case_aligned = ((h >> 9) & 3) == 0;
   // 1/16 of the cases each: adjacent ascending, adjacent descending, page-end, page-start, far apart
-  g_case_place = g_case_aligned ? 0 : (((h >> 11) & 15) < 6 ? 1 + (int)((h >> 11) & 15) : 0);
+  g_case_place = g_case_aligned ? 0 : (((h >> 11) & 15) < 8 ? 1 + (int)((h >> 11) & 15) : 0);
   rng_seed(&cur_rng, G.seed ^ hash_bytes(G.prop, strlen(G.prop), 3), h);
   cur_note[0] = 0;
   cur_viols = 0;
@@ -318,7 +318,8 @@ void case_end(int nontrivial) {
   n_eval++;
   if (g_case_aligned) cnt("cases_with_every_buffer_64B_aligned", 1);
   {
-    static const char* const pn[] = {0, "cases_with_buffers_adjacent_ascending", "cases_with_buffers_adjacent_descending", "cases_with_buffers_ending_at_a_guard_page", "cases_with_buffers_starting_after_a_guard_page", "cases_with_buffers_64GiB_apart", "cases_with_buffers_packed_back_to_back"};
+    static const char* const pn[] = {0, "cases_with_buffers_adjacent_ascending", "cases_with_buffers_adjacent_descending", "cases_with_buffers_ending_at_a_guard_page", "cases_with_buffers_starting_after_a_guard_page", "cases_with_buffers_64GiB_apart", "cases_with_buffers_packed_back_to_back",
+                                      "cases_with_buffers_exact_multiples_of_64GiB_apart", "cases_with_buffers_at_nearby_page_offsets"};
     if (g_case_place) cnt(pn[g_case_place], 1);
   }
   if (nontrivial) hset_add(&nontrivial_cases, cur_hash);
@@ -473,6 +474,14 @@ static size_t canary_find_bad(const uint8_t* base, uint64_t cseed, size_t from, 
   return bad;
 }
 
+static __thread long gb_forced[8];
+static __thread int gb_forced_n, gb_forced_i;
+void gb_force_page_offsets(const long* offs, int n) {
+  if (n > 8) n = 8;
+  for (int i = 0; i < n; i++) gb_forced[i] = ((offs[i] % 4096) + 4096) % 4096;
+  gb_forced_n = n;
+  gb_forced_i = 0;
+}
 void* gb_alloc(gbuf_t* g, size_t n, size_t align, size_t mis, size_t guard) {
   if (guard < 4096) guard = 4096;
   if (guard > (1u << 20)) guard = 1u << 20;
@@ -498,18 +507,51 @@ void* gb_alloc(gbuf_t* g, size_t n, size_t align, size_t mis, size_t guard) {
       return g->p;
     }
   }
-  if (g_case_place >= 3 && g_case_place <= 5) {
+  if (gb_forced_n > 0 || g_case_place == 8) {
+    // the buffer's offset inside its page is chosen: either forced by the case (one-shot list, consumed in allocation
+    // order: sweeps of the distance between two operands modulo the page size) or, mode 8, within +-16 alignment units
+    // of the middle of the page, so that the operands of a case sit at nearby page offsets (4K-aliasing neighbourhood)
+    const size_t pg = 4096;
+    size_t off;
+    if (gb_forced_n > 0) {
+      off = (size_t)gb_forced[gb_forced_i % gb_forced_n] % pg;
+      gb_forced_i++;
+      if (gb_forced_i >= gb_forced_n) gb_forced_n = 0;
+    } else {
+      static uint64_t near_ctr;
+      const uint64_t k = mix64(__atomic_add_fetch(&near_ctr, 1, __ATOMIC_RELAXED) * 0x9E3779B97F4A7C15ull + n) % 33;
+      off = (size_t)(2048 + ((long)k - 16) * (long)(align > 8 ? align : 8));
+    }
+    off &= ~(size_t)(align - 1);
+    g->guard = 0;
+    g->n = n;
+    g->total = n + 3 * pg;
+    if (posix_memalign((void**)&g->base, pg, g->total)) harness_fail("out of memory (%zu bytes)", g->total);
+    g->p = g->base + pg + off;
+    static uint64_t gbn_counter;
+    g->cseed = mix64((uint64_t)n * 137 + 5 + __atomic_add_fetch(&gbn_counter, 1, __ATOMIC_RELAXED) * 0x9E3779B97F4A7C15ull);
+    const size_t pre = (size_t)(g->p - g->base);
+    canary_fill(g->base, g->cseed, 0, pre);
+    canary_fill(g->base, g->cseed, pre + n, g->total);
+    VP_POISON(g->base, pre);
+    VP_POISON(g->p + n, g->total - pre - n);
+    return g->p;
+  }
+  if (g_case_place == 7 || (g_case_place >= 3 && g_case_place <= 5)) {
     // own mapping: [inaccessible page][data pages][inaccessible page]; the user bytes are flush with the end (3) or the
     // start (4) of the data pages, so that an over-read / under-read of even one byte faults in every build, also inside
     // the assembly kernels no sanitizer instruments. Mode 5: ordinary layout, but mappings 64 GiB apart.
     const size_t pg = 4096;
     static uint64_t far_slot;
-    const size_t slack = g_case_place == 5 ? 2 * pg : align;  // canary bytes around the data where no guard page touches it
-    const size_t data = (n + slack + pg - 1) / pg * pg + (g_case_place == 5 ? 0 : 0);
+    const int far = g_case_place == 5 || g_case_place == 7;
+    if (g_case_place == 7) mis = 0;  // mode 7: the same offset in every mapping, so that two buffers are EXACT multiples of 64 GiB apart
+    const size_t slack = far ? 2 * pg : align;  // canary bytes around the data where no guard page touches it
+    const size_t data = (n + slack + pg - 1) / pg * pg;
     const size_t len = data + 2 * pg;
     void* hint = 0;
-    if (g_case_place == 5) hint = (void*)(uintptr_t)(0x100000000000ull + (__atomic_add_fetch(&far_slot, 1, __ATOMIC_RELAXED) % 448) * 0x1000000000ull);
-    uint8_t* m = mmap(hint, len, PROT_READ | PROT_WRITE, MAP_PRIVATE | MAP_ANONYMOUS | MAP_NORESERVE, -1, 0);
+    if (far) hint = (void*)(uintptr_t)(0x100000000000ull + (__atomic_add_fetch(&far_slot, 1, __ATOMIC_RELAXED) % 448) * 0x1000000000ull);
+    uint8_t* m = mmap(hint, len, PROT_READ | PROT_WRITE, MAP_PRIVATE | MAP_ANONYMOUS | MAP_NORESERVE | (g_case_place == 7 && !VP_TSAN ? MAP_FIXED_NOREPLACE : 0), -1, 0);  // (TSan's mmap interceptor drops hints outside its application ranges)
+    if (m == MAP_FAILED && g_case_place == 7) m = mmap(0, len, PROT_READ | PROT_WRITE, MAP_PRIVATE | MAP_ANONYMOUS | MAP_NORESERVE, -1, 0);  // slot taken: anywhere
     if (m != MAP_FAILED) {
       mprotect(m, pg, PROT_NONE);
       mprotect(m + pg + data, pg, PROT_NONE);
@@ -522,6 +564,7 @@ void* gb_alloc(gbuf_t* g, size_t n, size_t align, size_t mis, size_t guard) {
       uintptr_t u;
       if (g_case_place == 3) u = ((uintptr_t)(g->base + data - n)) & ~(uintptr_t)(align - 1);
       else if (g_case_place == 4) u = (uintptr_t)g->base;
+      else if (g_case_place == 7) u = (uintptr_t)g->base + pg;
       else u = ((uintptr_t)g->base + pg + mis) & ~(uintptr_t)7;
       g->p = (uint8_t*)u;
       static uint64_t gbm_counter;
